@@ -62,10 +62,10 @@ from ..oracles import c10_smodel as sm
 
 ID = "C10"
 TIERS = {
-    "quick": {"shards": 8, "budget_s": 28},
+    "quick": {"shards": 8, "budget_s": 25},
     "thorough": {"shards": 16, "budget_s": 330},
 }
-MIN_EVENTS = {"quick": 20000, "thorough": 200000}
+MIN_EVENTS = {"quick": 60000, "thorough": 600000}
 DECIDING = {"model", "frame", "read", "isolation", "invariant"}
 EXHAUSTIVE = {"quick": False, "thorough": False}
 RULE = (
@@ -243,6 +243,16 @@ def _changed(s, snap):
     return "modified"
 
 
+def _family(name):
+    if name in sm.ELEMENTWISE:
+        return "elementwise"
+    if name in sm.STAT_ALL:
+        return "statistics"
+    if name in MOVS:
+        return "moving"
+    return name
+
+
 def _nvkey(sers):
     return "x".join(str(s.data.shape[1]) if getattr(s.data, "ndim", 0) == 2 else "?" for s in sers)
 
@@ -256,7 +266,7 @@ def _report_arg_changes(c, kind, name, snaps):
             c.violation(f"isolation:argument-variants-broadcast-in-place:{name}",
                         f"{kind} {name} broadcast a Series ARGUMENT in place from 1 to {s.data.shape[1]} variants")
         else:
-            c.violation(f"isolation:{kind}-modified-argument:{name}",
+            c.violation(f"isolation:{kind}-modified-argument:{_family(name)}",
                         f"{kind} form {name} modified a Series argument: start {snap[0]} -> {s.start}, shape {snap[1]} -> {s.data.shape}")
 
 
@@ -299,7 +309,7 @@ def _make_functional(name, is_copy=False):
                 for r in outs:
                     for s, snap in snaps:
                         if r is s or np.shares_memory(r.data, s.data) or np.shares_memory(r.data, snap[4]):
-                            c.violation(f"isolation:functional-aliases-argument:{name}",
+                            c.violation(f"isolation:functional-aliases-argument:{_family(name)}",
                                         f"the result of {name} shares memory with its argument")
                         if is_copy and _changed(r, snap) is not None:
                             c.violation("copy:not-equal", "copy() differs from the original")
@@ -996,13 +1006,14 @@ def _compare(c, st, step, out, before):
     f = st.freq
     tgt = out.target
     label = out.op
+    vk = _vkey(step, out)
     if tgt is not None and st.real[tgt] is not None:
         x = st.real[tgt]
         m = st.model[tgt]
         try:
             got = observe(f, x)
         except _Broken as exc:
-            c.violation(f"model:{label}:representation", f"after {label}: {exc}")
+            c.violation(f"model:{vk}:representation", f"after {label}: {exc}")
             st.real[tgt] = None
             st.model[tgt] = None
             got = None
@@ -1012,23 +1023,23 @@ def _compare(c, st, step, out, before):
                 c.event("model", label, key=_key(st, label, ops), nontrivial=all(o.cells for o in ops if isinstance(o, sm.SModel)))
             if out.resync:
                 if not got.covered():
-                    c.violation(f"model:{label}:span-not-covering", "reported span does not cover the non-missing values")
+                    c.violation(f"model:{vk}:span-not-covering", "reported span does not cover the non-missing values")
                 st.model[tgt] = got
             else:
                 if got.nv != m.nv:
-                    c.violation(f"model:{label}:variants", f"after {label}: {got.nv} variants, expected {m.nv}")
+                    c.violation(f"model:{vk}:variants", f"after {label}: {got.nv} variants, expected {m.nv}")
                     st.model[tgt] = got
                 else:
                     bad = sm.diff_cells(got.cells, m, out.check)
                     if bad:
                         desc = "; ".join(f"{_plabel(f, t)}[v{v}] is {o} expected {e}" for (t, v), o, e in bad)
-                        c.violation(f"model:{label}:cell-mismatch", f"after {label}: {desc}", detail={"step": step})
+                        c.violation(f"model:{vk}:cell-mismatch", f"after {label}: {desc}", detail={"step": step})
                     if (out.check and out.check.span_exact) or out.trim_promised:
                         if not got.is_trimmed():
                             if not got.cells and got.has_start():
-                                c.violation(f"model:{label}:empty-with-start", f"after {label}: all-missing result keeps start / rows (span {got.lo}..{got.hi})")
+                                c.violation(f"model:{vk}:empty-with-start", f"after {label}: all-missing result keeps start / rows (span {got.lo}..{got.hi})")
                             else:
-                                c.violation(f"model:{label}:not-trimmed", f"after {label}: reported span {_plabel(f, got.lo)}..{_plabel(f, got.hi)} has all-missing edge periods")
+                                c.violation(f"model:{vk}:not-trimmed", f"after {label}: reported span {_plabel(f, got.lo)}..{_plabel(f, got.hi)} has all-missing edge periods")
                     # the model continues from what the real object reports (span always; cells where not decided)
                     chk = out.check
                     if bad or (chk and (chk.undecided or chk.alt or chk.rtol)):
@@ -1061,6 +1072,13 @@ def _compare(c, st, step, out, before):
             st.model[i] = got
         else:
             st.model[i] = old
+
+
+def _vkey(step, out):
+    """violation-key stem: the operation family (the individual element-wise / statistic / moving function goes to the message)"""
+    if step["op"] in ("elem", "stat", "mov"):
+        return f"{step['op']}:{step.get('form', '')}"
+    return out.op
 
 
 def _plabel(f, t):
@@ -1668,8 +1686,10 @@ def replay(c, case):
 def shard(c):
     _prepare()
     rng = c.rng
-    for h in directed_histories():
+    for k, h in enumerate(directed_histories()):
         run_history(c, h)
+        if k == 0 and c.shard == 0:
+            c.sample(h)
     n_hist = c.scale(2500, 200000)
     for i in range(n_hist):
         if c.out_of_time():
@@ -1683,6 +1703,6 @@ def shard(c):
         except Exception as exc:
             c.inconc(f"history:harness:{type(exc).__name__}")
             c.extra.setdefault("harness_trace", repr(exc)[:300])
-        if i in (1, 2) and c.shard == 0:
-            c.sample({"freq": freq, "n_steps": len(case["steps"]), "first_steps": case["steps"][:6]})
+        if i in (1, 2, 3) and c.shard == 0:
+            c.sample({"kind": "history", "freq": freq, "n_steps": len(case["steps"]), "steps(first 8)": case["steps"][:8]})
     c.extra["histories"] = c.extra.get("histories", 0) + min(i + 1, n_hist)
